@@ -12,6 +12,13 @@ VERIF = os.path.dirname(os.path.dirname(os.path.abspath(__file__)))
 NOT_APPLICABLE = {
     "C05": "termination needs the interpreter unrolled through dozens of iterations with a symbolic instruction "
            "pointer (>5 min per such iteration under CBMC); no step-local ranking function exists; see DESIGN.md C05",
+    "C07": "the parser cannot be executed symbolically here: Parser owns a HashMap whose RandomState needs a syscall Kani "
+           "cannot model (paths die before parsing), with the hasher stubbed symex did not finish for 2 code points, and "
+           "the alloc/hashbrown build exceeded 12 GB (DESIGN 2.3 P18-P23); stack exhaustion and adversarially large "
+           "inputs are outside any bounded model checker's reach; no SMT transcription of a 2100-line recursive-descent "
+           "parser is attempted",
+    "C08": "needs the parser under symbolic input plus an independent ES2025 recogniser; the parser is out of reach "
+           "(see C07).  Consequences of grammar defects that reach the compiled program are caught by C01/C12 on the corpus",
     "C19": "quantifies over thread interleavings; Kani/CBMC do not explore schedules of Rust code; see DESIGN.md C19",
 }
 PENDING = "check not built yet (work in progress in this session; see DESIGN.md for the planned harnesses)"
